@@ -23,6 +23,7 @@ from __future__ import annotations
 import asyncio
 import collections
 import errno
+import math
 import heapq
 import selectors
 import socket
@@ -667,6 +668,9 @@ class SimLoop(selector_events.BaseSelectorEventLoop):
         pass
 
     def _run_once(self):
+        # asyncio fires a timer when `when < time() + resolution`; far into virtual time one
+        # ulp of the clock exceeds a fixed 1 ns and a timer due exactly "now" would never fire
+        self._clock_resolution = max(1e-9, 4 * math.ulp(self.net.now))
         self.iterations += 1
         if self.iterations > self.max_iterations:
             self.iter_cap_hit = True
